@@ -135,6 +135,21 @@ let register (reg : string -> (Sx.t list -> Sx.t) -> unit) : unit =
             | Some r -> r | None -> None) in
         wr_bool (Bypass.is_trusted_ip parse (Bypass.build_set nets) (rd_bool use_header) (rd_breq rq))
       | _ -> raise (Bad "trusted_ip arity"));
+  (* ---- Authz ---- *)
+  reg "email_valid" (function
+      | [domains; file; email] ->
+        wr_bool (Authz.email_valid (rd_list rd_str domains) (rd_list rd_str file) (rd_str email))
+      | _ -> raise (Bad "email_valid arity"));
+  reg "auth_only" (function
+      | [vg; vd; ve; sess] ->
+        let s = rd_opt (function
+            | L [em; gs] -> { Authz.a_email = rd_str em; a_groups = rd_list rd_str gs }
+            | v -> raise (Bad ("bad session " ^ to_string v))) sess in
+        wr_bool (Authz.auth_only_authorize (rd_list rd_str vg) (rd_list rd_str vd) (rd_list rd_str ve) s)
+      | _ -> raise (Bad "auth_only arity"));
+  reg "endpoint_allowed" (function
+      | [h; p; allowed] -> wr_bool (Authz.is_endpoint_allowed (rd_str h) (rd_str p) (rd_list rd_str allowed))
+      | _ -> raise (Bad "endpoint_allowed arity"));
   reg "split_host_port" (function
       | [x] -> wr_opt (wr_pair wr_str wr_str) (NetAddr.split_host_port (rd_str x))
       | _ -> raise (Bad "split_host_port arity"));
